@@ -232,11 +232,11 @@ func genC06(g GenCtx) interface{} {
 		p := b.randParent(rng, 3)
 		switch r := rng.Intn(10); {
 		case r < 3:
-			b.add(p, "subf", TAct{Filter: randFilter(rng), Reader: "eager"})
+			b.add(p, "subf", TAct{Filter: randFilter(rng), Reader: "eager", Stateful: rng.Intn(5) == 0})
 		case r < 5:
 			b.add(p, "subff", TAct{Reader: "eager"})
 		case r < 7:
-			b.add(p, "clonef", TAct{Filter: randFilter(rng)})
+			b.add(p, "clonef", TAct{Filter: randFilter(rng), Stateful: rng.Intn(5) == 0})
 		case r < 8:
 			b.add(p, "cloneff", TAct{})
 		case r < 9:
